@@ -191,6 +191,13 @@ MUTANTS = [
     ('C19', 'notify-not-dumped', (R, NODE_UTILS, "        'notify': e.notify,\n", ""), 'C19.j'),
     ('C19', 'success-from-failure', (R, NODE_UTILS, "    e.success = bool(data['success'])", "    e.success = bool(data['failure'])"), 'C19.j'),
     ('C19', 'value-errors-swapped', (R, NODE_UTILS, "    return data['value'], data['id'], data['errors'], meta", "    return data['value'], data['errors'], data['id'], meta"), 'C19.j'),
+    ('C14', 'error-response-not-closing', (R, 'circuits/web/errors.py', "        self.response.close = True\n", ""), 'C14.g'),
+    ('C14', 'error-status-only-when-code', (R, 'circuits/web/errors.py', "        self.response.status = self.code\n", "        if code is not None:\n            self.response.status = self.code\n"), 'C14.g'),
+    ('C14', '304-error-with-body', (R, 'circuits/web/errors.py', "self.code in (204, 205, 304)", "self.code in (204, 205)"), 'C14.g'),
+    ('C14', 'error-handler-no-body', (R, HTTP, "        res.body = str(event)\n        self.fire(response(res))\n", "        self.fire(response(res))\n"), 'C14.g'),
+    ('C19', 'revert-shared-call-table', ('revert', 'fe719dc'), 'C19.l'),
+    ('C19', 'revert-relay-by-everyone', ('revert', '077084b'), 'C19.k'),
+    ('C19', 'stamp-after-fire', (R, NODE_PROTOCOL, "            event.node_protocol = self\n\n            self.fire(event, *event.channels)\n", "\n            self.fire(event, *event.channels)\n            event.node_protocol = self\n"), 'C19.k'),
 ]
 
 # behaviour-preserving edits: the check of the property must stay silent
@@ -241,4 +248,5 @@ TWINS = [
                                  "        if password is not None:\n            if _httpauth.checkResponse(ah, password, method=request.method, encrypt=encrypt, realm=realm):\n                request.login = ah['username']\n                return True"), None),
     ('C01', 'twin-addhandler-local-table', (R, MANAGER, "            for name in method.names:\n                self._handlers.setdefault(name, set()).add(method)\n", "            for evname in method.names:\n                self._handlers.setdefault(evname, set()).add(method)\n"), None),
     ('C19', 'twin-dump-key-order', (R, NODE_UTILS, "        'id': id,\n        'name': e.name,\n", "        'name': e.name,\n        'id': id,\n"), None),
+    ('C14', 'twin-error-status-first', (R, 'circuits/web/errors.py', "        self.response.close = True\n        self.response.status = self.code\n", "        self.response.status = self.code\n        self.response.close = True\n"), None),
 ]
